@@ -411,3 +411,39 @@ package packfile
 //gvc:  results rd err
 //gvc:  ensures concrete: err == nil ==> typeis(rd, "bytes.Reader")
 //gvc:end
+
+// Delta index lookups (property C07: the pack the encoder writes contains the
+// requested objects with identical contents). A copy instruction is emitted
+// by diffDelta for every match of at least blksz bytes that findMatch
+// reports, so a reported match must be a real one: the l bytes of the base at
+// srcOffset equal the l bytes of the target at tgtOffset. The block hash only
+// selects the candidate; equality is decided by comparing the bytes.
+//gvc:func matchLength
+//gvc:  props C07
+//gvc:  theory int
+//gvc:  requires pos: 0 <= osrc && 0 <= otgt
+//gvc:  loop 1 invariant adv: 0 <= l && now(osrc) == osrc + l && now(otgt) == otgt + l
+//gvc:  loop 1 invariant eq: forall(k, 0, l, src[osrc + k] == tgt[otgt + k])
+//gvc:  loop 1 invariant room: l == 0 || (now(osrc) <= len(src) && now(otgt) <= len(tgt))
+//gvc:  loop 1 decreases ite(len(src) >= now(osrc), len(src) - now(osrc), 0)
+//gvc:  ensures match: l >= 0 && forall(k, 0, l, src[osrc + k] == tgt[otgt + k])
+//gvc:  ensures room: l > 0 ==> osrc + l <= len(src) && otgt + l <= len(tgt)
+//gvc:end
+
+//gvc:func hashBlock
+//gvc:  props C07
+//gvc:  trusted
+//gvc:  requires room: 0 <= ptr && ptr + 16 <= len(raw)
+//gvc:end
+
+//gvc:func (*deltaIndex).findMatch
+//gvc:  props C07
+//gvc:  theory int
+//gvc:  results srcOffset l
+//gvc:  requires off: 0 <= tgtOffset && tgtOffset <= len(tgt)
+//gvc:  requires mask: 0 <= idx.mask && idx.mask < len(idx.table)
+//gvc:  requires table: forall(i, 0, len(idx.table), 0 <= idx.table[i] && idx.table[i] < len(idx.entries))
+//gvc:  requires entries: forall(i, 0, len(idx.entries), 0 <= idx.entries[i])
+//gvc:  ensures genuine: l >= 16 ==> 0 <= srcOffset && srcOffset + l <= len(src) && tgtOffset + l <= len(tgt) && forall(k, 0, l, src[srcOffset + k] == tgt[tgtOffset + k])
+//gvc:  ensures short: l < 16 && l > 0 ==> tgtOffset + l <= len(tgt)
+//gvc:end
